@@ -38,7 +38,7 @@ ASSUMPTIONS = ['gfortran/gcc 12 at -O0 define the target-language value of a tex
                'a tree is only judged at valuations where the independent evaluator finds it defined and well-conditioned',
                'the FP re-parse is a second opinion: texts it cannot parse but gfortran accepts (a*-b) are judged by gfortran']
 BUDGET_S = {'quick': 300, 'thorough': 2400}
-CASE_TIMEOUT_S = 300
+CASE_TIMEOUT_S = 900
 
 NTREES = 24
 NENUM = 64          # trees per case in the deterministic enumeration slice
@@ -164,19 +164,24 @@ def gen_tree(rng, ctx, flags, hostile, avoid):
     return back, tree, src
 
 
-REPL = {'i4': ['k2', 'i3', 'k1', 'i4'], 'r8': ['r4', 'r2', 'r3', 'r1'], 'r4': ['s2', 's1', 's2', 's1'], 'l': ['l3', 'l2', 'l1', 'l3']}
+REPL = {'i4': ['k2', 'i3', 'k1', 'i4', 'i1', 'i2'], 'r8': ['r4', 'r2', 'r3', 'r1'], 'r4': ['s2', 's1'], 'l': ['l3', 'l2', 'l1']}
 
 
-def leaf_for(node, role, child, env, i=0):
-    """plain operand of the child's type for position i (distinct variables: equal operands create coincidences)"""
+def leaf_for(node, role, child, env, taken):
+    """plain operand of the child's type that does not occur in the node yet (equal operands create coincidences)"""
     ty = X.static_type_safe(child, env)
-    if role == 'exponent' and ty == 'i4':
-        return ('var', 'n2')
-    if role == 'base' and ty == 'r8':
-        return ('var', 'p2')
     if role.startswith('sub'):
         return ('int', 1, None)
-    return ('var', REPL.get(ty, REPL['i4'])[i % 4])
+    pool = REPL.get(ty, REPL['i4'])
+    if role == 'exponent' and ty == 'i4':
+        pool = ['n2', 'n1']
+    if role == 'base' and ty == 'r8':
+        pool = ['p2', 'p1']
+    for nm in pool:
+        if nm not in taken:
+            taken.add(nm)
+            return ('var', nm)
+    return ('var', pool[0])
 
 
 class Judge:
@@ -216,7 +221,7 @@ class Judge:
 
 
 def _is_lit(n):
-    return n[0] in ('int', 'real')
+    return n[0] in ('int', 'real') and n[2] != '#py'
 
 
 def classify_many(judge, asts, prefix):
@@ -243,18 +248,21 @@ def classify_many(judge, asts, prefix):
         minimal = [n for n in failing if not any(res.get(c, ('pass',))[0] == 'fail' for _r, c in X.children(n))]
         node = min(minimal or failing, key=lambda n: (X.size(n), str(n)))
         cand = [(i, r, c) for i, (r, c) in enumerate(X.children(node)) if X.children(c) or X.level(c) == 5]
-        keep = []
+        taken = {n[1] for _p, n in X.subtrees(node) if n[0] == 'var'}
+        leaves = {i: leaf_for(node, r, c, env, taken) for i, r, c in cand}
+        keep, drop = [], []
         for i, _r, _c in cand:
             v = node
-            for j, r2, c2 in cand:
+            for j, _r2, _c2 in cand:
                 if j != i:
-                    v = X.replace_child(v, j, leaf_for(node, r2, c2, env, j))
-            keep.append(v)
+                    v = X.replace_child(v, j, leaves[j])
+            keep.append(v)                                        # only child i left in place
+            drop.append(X.replace_child(node, i, leaves[i]))      # only child i replaced
         allrep = node
-        for i, r, c in cand:
-            allrep = X.replace_child(allrep, i, leaf_for(node, r, c, env, i))
+        for i, _r, _c in cand:
+            allrep = X.replace_child(allrep, i, leaves[i])
         plans.append((node, cand, len(variants), len(keep)))
-        variants += keep + [allrep]
+        variants += keep + drop + [allrep]
     vres = judge.judge_asts(variants) if variants else []
     out = []
     for ast, plan in zip(asts, plans):
@@ -265,16 +273,18 @@ def classify_many(judge, asts, prefix):
         wit = {'minimal_subtree': X.ref_fortran(node) if judge.target == 'fortran' else str(node),
                'printed': res[node][1], 'observed': str(res[node][3])[:200], 'expected': str(res[node][2])[:200]}
         key = None
-        if judge.target == 'c' and node[0] == 'neg' and str(res[node][1]).startswith('--'):
+        if judge.target == 'c' and '--' in str(res[node][1]):
             # mechanism recognised from the printed text itself: unary minus glued to a text that starts with '-'
+            # (the children print without '--' on their own, otherwise they would be the minimal failing node)
             key = f'{prefix}:Neg.operand<-minus-prefixed-text:decrement-token'
         if key is None:
-            for (i, r, c), vr in zip(cand, vres[off:off + n]):
-                if vr[0] == 'fail':
+            # culprit: the node still fails with only this child in place, or is repaired by replacing only this child
+            for k, (i, r, c) in enumerate(cand):
+                if vres[off + k][0] == 'fail' or vres[off + n + k][0] == 'pass':
                     role = 'arg' if r.startswith('arg') else r
                     key = f'{prefix}:{X.kind_of(node)}.{role}<-{X.kind_of(c)}:{TYCLASS[X.static_type_safe(c, env)]}'
                     break
-        if key is None and (not cand or vres[off + n][0] == 'fail'):
+        if key is None and (not cand or vres[off + 2 * n][0] == 'fail'):
             key = f'{prefix}:{X.kind_of(node)}:self:{TYCLASS[X.static_type_safe(node, env)]}'
         if key is None:
             kinds = '+'.join(sorted({X.kind_of(c) for _i, _r, c in cand}))
@@ -394,9 +404,12 @@ def run_case(idx, rng, tier, ctx):
                         for v in vals:
                             try:
                                 e2.append(ev(a2, v))
-                            except (X.Undefined, X.Fragile):
+                            except X.Undefined:
                                 e2.append(None)
-                        ok2 = all(x is None or (y is not None and X.agree(x, y)) for x, y in zip(it['exp'], e2))
+                            except X.Fragile:
+                                e2.append('fragile')     # defined, ill-conditioned in this association: no opinion
+                        ok2 = all(x is None or isinstance(y, str) or (y is not None and X.agree(x, y))
+                                  for x, y in zip(it['exp'], e2))
                         fpv = 'agree' if ok2 else 'differ'
                     except X.EvalError:
                         fpv = 'differ'
@@ -424,16 +437,20 @@ def run_case(idx, rng, tier, ctx):
                     pass
             todo.append(k)
         if todo:
-            for k, kw in zip(todo, classify_many(judge, [items[k]['ast'] for k in todo], prefix)):
+            # localisation uses extra valuations so that value coincidences do not blur the culprit
+            cj = Judge(ctx, target, vals + [env.valuation(rng) for _ in range(16)], wd, cnt)
+            for k, kw in zip(todo, classify_many(cj, [items[k]['ast'] for k in todo], prefix)):
                 keys[k] = kw
         for k, it, verdict in failing:
             key, wit = keys[k]
             wit = dict(wit or {}, tree=str(it['ast'])[:1500], printed_text=it['text'], reference=refs[k], source=it['src'],
                        verdict=verdict, compiler_error=judge.batch.first_error.get(2 * k + 1, ''))
+            wit['slice'] = 'enumeration' if enum else ('hostile' if hostile else 'main')
+            bump('mismatches_in_' + wit['slice'] + '_slice')
             res['violations'].append({'key': key, 'msg': f'{it["text"]!r} does not denote {refs[k]!r}: {verdict}'[:400],
                                       'witness': wit})
-        bump('compiler_batches_total', judge.batch.compiles)
-        bump('batch_bisections', judge.batch.bisections)
+        bump('compiler_batches_total', judge.batch.compiles + (cj.batch.compiles if todo else 0))
+        bump('batch_bisections', judge.batch.bisections + (cj.batch.bisections if todo else 0))
         res['nontrivial'] = compared >= want // 2
         res['features'] = sorted(feats)
         res['sample'] = {'target': target, 'hostile': hostile, 'trees': len(items),
